@@ -28,7 +28,9 @@ INPUTS = ['0', '1', '2', '3', '4', '5']
 
 def plan(tier, seed):
     n, per = (16, 45) if tier == 'quick' else (64, 160)
-    return [{'kind': 'gen', 'seed': s, 'count': per} for s in common.shard_seeds(seed, n)]
+    parts = 4 if tier == 'quick' else 8
+    return [{'kind': 'gen', 'seed': s, 'count': per} for s in common.shard_seeds(seed, n)] + \
+           [{'kind': 'grid', 'part': i, 'parts': parts, 'tier': tier} for i in range(parts)]
 
 
 def nest_exits(stmts, depth=0):
@@ -46,79 +48,88 @@ def nest_exits(stmts, depth=0):
     return n
 
 
+def check_one(res, prog, ret, tag, words=(2, 3)):
+    CompilerError, _ = env.compiler_error_types()
+    src = A.render(prog)
+    nontrivial = nest_exits(prog.funcs[1].body) >= 2
+    try:
+        env.compile_src(src, word=2, stack=500)
+    except CompilerError as e:
+        res['evaluations'] += 1
+        if 'Missing return' in str(e) and ret != A.EMPTY:
+            runner.count(res, 'rejected_missing_return')
+        else:
+            runner.fail(res, 'M-DIFF', f'well-formed program rejected: {type(e).__name__}: {e}', diff.case_dict(src, [], 2, 500, gen=tag))
+        return
+    except Exception as e:  # noqa
+        runner.fail(res, 'M-EXC', f'{type(e).__name__}: {e}', diff.case_dict(src, [], 2, 500, gen=tag))
+        return
+    runner.count(res, 'accepted')
+    if ret != A.EMPTY:
+        runner.count(res, 'accepted_value_returning')
+    bad = False
+    for word in words:
+        for unchecked in (False, True):
+            for x in INPUTS:
+                if bad:
+                    break
+                res['evaluations'] += 1
+                case = diff.case_dict(src, [x], word, diff.GENEROUS_STACK, unchecked, gen=tag)
+                run = diff.compile_and_run(src, [x], word=word, stack=diff.GENEROUS_STACK, unchecked=unchecked, max_steps=MAX_STEPS)
+                if run.kind != 'ok':
+                    runner.fail(res, 'M-ASM' if run.kind == 'asm' else 'M-EXC', f'{run.kind}: {run.detail}', case)
+                    bad = True
+                    break
+                o = run.outcome
+                common.side_observe(res, run)
+                fall = [r for r in o.reports if r[1] == 'fall']
+                if fall:
+                    runner.fail(res, 'M-FALL', fall[0][2], case, observed=o.brief())
+                    bad = True
+                    break
+                if b'<NEXT>' in o.out:
+                    runner.fail(res, 'M-FALL', 'the function placed after the one under test ran although it is never called', case, observed=o.brief())
+                    bad = True
+                    break
+                if o.klass == 'TIMEOUT':
+                    runner.count(res, 'vm_timeouts')
+                    continue
+                try:
+                    ref = RefInt(prog, word=word, args=[x], checked=not unchecked).run()
+                except FellOff as e:
+                    runner.fail(res, 'M-ACCEPT', f'accepted, but on input {x} control reaches the end of value-returning function {e.fname}',
+                                case, observed=o.brief())
+                    bad = True
+                    break
+                except Skip as sk:
+                    runner.count(res, 'model_skips')
+                    runner.note(res, 'model_skip_reasons', sk.why[:60])
+                    if o.klass in ('HALT', 'TRAP'):
+                        runner.fail(res, 'M-HALT', f'{o.klass} {o.trap}', case, observed=o.brief())
+                        bad = True
+                    continue
+                msg = diff.compare_streams(ref, o)
+                if msg:
+                    runner.fail(res, 'M-DIFF', msg, case, expected=ref.brief(), observed=o.brief())
+                    bad = True
+                    break
+                runner.count(res, 'agree_' + ref.klass.split(':')[0])
+                if nontrivial:
+                    res['nontrivial'].append(runner.case_id(src, x))
+    if len(res['samples']) < 2 and nontrivial and not bad:
+        res['samples'].append({'gen': tag, 'source': src[:1500], 'inputs': INPUTS})
+
+
 def run_shard(spec):
     res = runner.new_result()
-    CompilerError, _ = env.compiler_error_types()
+    if spec['kind'] == 'grid':
+        from ..gen import exits
+        for k, (tag, prog, ret) in enumerate(exits.loop_exit_programs()):
+            if k % spec['parts'] == spec['part']:
+                check_one(res, prog, ret, tag, words=(2,) if spec['tier'] == 'quick' else (2, 3))
+        return res
     for i in range(spec['count']):
         s = spec['seed'] * 100003 + i
         prog, flavor, ret = ExitGen(s).program()
-        src = A.render(prog)
-        tag = f'exits:{s}:{flavor or "ordinary"}:{ret}'
-        nontrivial = nest_exits(prog.funcs[1].body) >= 2
-        try:
-            env.compile_src(src, word=2, stack=500)
-        except CompilerError as e:
-            res['evaluations'] += 1
-            if 'Missing return' in str(e) and ret != A.EMPTY:
-                runner.count(res, 'rejected_missing_return')
-            else:
-                runner.fail(res, 'M-DIFF', f'well-formed program rejected: {type(e).__name__}: {e}', diff.case_dict(src, [], 2, 500, gen=tag))
-            continue
-        except Exception as e:  # noqa
-            runner.fail(res, 'M-EXC', f'{type(e).__name__}: {e}', diff.case_dict(src, [], 2, 500, gen=tag))
-            continue
-        runner.count(res, 'accepted')
-        if ret != A.EMPTY:
-            runner.count(res, 'accepted_value_returning')
-        bad = False
-        for word in (2, 3):
-            for unchecked in (False, True):
-                for x in INPUTS:
-                    if bad:
-                        break
-                    res['evaluations'] += 1
-                    case = diff.case_dict(src, [x], word, diff.GENEROUS_STACK, unchecked, gen=tag)
-                    run = diff.compile_and_run(src, [x], word=word, stack=diff.GENEROUS_STACK, unchecked=unchecked, max_steps=MAX_STEPS)
-                    if run.kind != 'ok':
-                        runner.fail(res, 'M-ASM' if run.kind == 'asm' else 'M-EXC', f'{run.kind}: {run.detail}', case)
-                        bad = True
-                        break
-                    o = run.outcome
-                    common.side_observe(res, run)
-                    fall = [r for r in o.reports if r[1] == 'fall']
-                    if fall:
-                        runner.fail(res, 'M-FALL', fall[0][2], case, observed=o.brief())
-                        bad = True
-                        break
-                    if b'<NEXT>' in o.out:
-                        runner.fail(res, 'M-FALL', 'the function placed after the one under test ran although it is never called', case, observed=o.brief())
-                        bad = True
-                        break
-                    if o.klass == 'TIMEOUT':
-                        runner.count(res, 'vm_timeouts')
-                        continue
-                    try:
-                        ref = RefInt(prog, word=word, args=[x], checked=not unchecked).run()
-                    except FellOff as e:
-                        runner.fail(res, 'M-ACCEPT', f'accepted, but on input {x} control reaches the end of value-returning function {e.fname}',
-                                    case, observed=o.brief())
-                        bad = True
-                        break
-                    except Skip as sk:
-                        runner.count(res, 'model_skips')
-                        runner.note(res, 'model_skip_reasons', sk.why[:60])
-                        if o.klass in ('HALT', 'TRAP'):
-                            runner.fail(res, 'M-HALT', f'{o.klass} {o.trap}', case, observed=o.brief())
-                            bad = True
-                        continue
-                    msg = diff.compare_streams(ref, o)
-                    if msg:
-                        runner.fail(res, 'M-DIFF', msg, case, expected=ref.brief(), observed=o.brief())
-                        bad = True
-                        break
-                    runner.count(res, 'agree_' + ref.klass.split(':')[0])
-                    if nontrivial:
-                        res['nontrivial'].append(runner.case_id(src, x))
-        if len(res['samples']) < 2 and nontrivial and not bad:
-            res['samples'].append({'gen': tag, 'source': src[:1500], 'inputs': INPUTS})
+        check_one(res, prog, ret, f'exits:{s}:{flavor or "ordinary"}:{ret}')
     return res
